@@ -31,6 +31,7 @@ type replayEntry struct {
 	Tape    string `json:"tape"`
 	Tier    string `json:"tier"`
 	Repeat  int    `json:"repeat,omitempty"`
+	Conc    bool   `json:"-"`
 	// expectation (not read by the native test)
 	Kind   string   `json:"expect_kind"`
 	Msg    string   `json:"expect_msg"`
@@ -155,6 +156,9 @@ func sameOutcome(exp replayEntry, got replayResult) bool {
 		if got.Kind != "ok" {
 			return false
 		}
+		if exp.Conc {
+			return true // cover labels may depend on the schedule, which natively is Go's
+		}
 		return strings.Join(exp.Covers, ",") == strings.Join(got.Covers, ",")
 	case "violation":
 		return got.Kind == "violation" && got.Msg == exp.Msg
@@ -251,6 +255,15 @@ func cmdCheck(args []string) int {
 			maxPaths = 2000000
 		}
 		ex.SetStepBudget(steps)
+		if prog.Func(hs.Name) == nil && len(prog.Dropped) > 0 {
+			// its file does not compile against this tree: the harness is unavailable, the others run
+			why := ""
+			for f, msg := range prog.Dropped {
+				why += fmt.Sprintf(" [%s: %s]", filepath.Base(f), firstLines(msg, 1))
+			}
+			problems = append(problems, fmt.Sprintf("%s: harness unavailable, a harness file does not compile against this tree:%s", hs.Name, why))
+			continue
+		}
 		res, err := ex.Run(hs.Name, maxPaths, 12)
 		if err != nil {
 			fmt.Fprintln(os.Stderr, err)
@@ -288,11 +301,17 @@ func cmdCheck(args []string) int {
 			rep := 0
 			if prefix != "w" {
 				rep = 40 // violations may depend on Go's random map iteration order
+				if hs.Concurrent {
+					rep = 5000 // ... or on the goroutine schedule: stress until it shows
+				}
 			}
-			entries = append(entries, replayEntry{ID: id, Harness: hs.Name, Tape: tape, Tier: *tier, Repeat: rep, Kind: o.Kind, Msg: o.Msg, Covers: o.Covers})
+			entries = append(entries, replayEntry{ID: id, Harness: hs.Name, Tape: tape, Tier: *tier, Repeat: rep, Kind: o.Kind, Msg: o.Msg, Covers: o.Covers, Conc: hs.Concurrent})
 			return id
 		}
-		for _, v := range res.Violations {
+		for vi, v := range res.Violations {
+			if hs.Concurrent && vi >= 2 {
+				break // each one is stress-replayed thousands of times
+			}
 			if id := addEntry(v, "v"); id != "" {
 				violationOutcomes[id] = v
 			}
